@@ -13,7 +13,8 @@ type NodeS struct {
 	CSel     bool     `json:"csel"`     // matches the canary nodeSelector encoding (label canary=yes)
 	Zone     string   `json:"zone"`     // value of the anti-affinity label
 	Taint    bool     `json:"taint"`    // carries the untolerated NoSchedule taint
-	Override string   `json:"override"` // resource override annotation class: none|r1|r2|bad
+	Override string   `json:"override"` // resource override annotation class for container main: none|r1|r2|r3|bad
+	Override2 string  `json:"override2"` // same for container side
 	SLabel   string   `json:"slabel"`   // value of label "grp" used by ExtendedDaemonsetSettings
 }
 
@@ -33,6 +34,7 @@ type PodS struct {
 	Hash      string `json:"hash"` // template identity of the hash annotation: A,B,.. | none | other
 	Tol       bool   `json:"tol"`  // carries all standard DaemonSet tolerations
 	Res       string `json:"res"`  // resource class of container "main": tmpl | r1 | r2 | r3 | other
+	Res2      string `json:"res2"` // resource class of container "side"
 	NodeHash  string `json:"nodeHash"` // ok (agrees with the node's override annotations now) | stale
 	SetLabel  string `json:"setLabel"`
 	Phase     string `json:"phase"`
